@@ -1,6 +1,16 @@
 //! Configurations with the C15 collection drivers compiled in (allocator kind `M`).
 use vcore::runner::ConfigEntry;
 
+pub const HAS_FULL: bool = false;
+
+pub fn quick() -> Vec<ConfigEntry> {
+    all(false)
+}
+
+pub fn full() -> Vec<ConfigEntry> {
+    all(true)
+}
+
 pub fn all(_include_full: bool) -> Vec<ConfigEntry> {
     let mut v = Vec::new();
     v.extend(cfgm0::entries());
